@@ -33,6 +33,7 @@ ghostvar ga seq
 ghostvar gm int
 ghostvar gov int
 ghostvar gfisg bool
+ghostvar ghsv bool
 ghostvar gfsh bool
 ghostvar gfpl bool
 ghostvar gfiv int
@@ -79,7 +80,7 @@ pred BK(bf *buffer) = bf.mode == old(bf.mode) && bf.gctx == old(bf.gctx)
 -- ---------------------------------------------------------------- buffer wrappers (print.go)
 
 func (bf *buffer) write(q []byte)
-  requires [C02,C05] S1(bf, $class(q))
+  requires [C02,C05,C09] S1(bf, $class(q))
   requires [C06] S2(bf)
   requires [C05,C06] S3(bf)
   requires [C05] S4(bf, $class(q))
@@ -87,7 +88,7 @@ func (bf *buffer) write(q []byte)
   ensures BK(bf)
 
 func (bf *buffer) writeString(s string)
-  requires [C02,C05] S1(bf, $class(s))
+  requires [C02,C05,C09] S1(bf, $class(s))
   requires [C06] S2(bf)
   requires [C05,C06] S3(bf)
   requires [C05] S4(bf, $class(s))
@@ -95,7 +96,7 @@ func (bf *buffer) writeString(s string)
   ensures BK(bf)
 
 func (bf *buffer) writeByte(c byte)
-  requires [C02,C05] S1(bf, $class(c))
+  requires [C02,C05,C09] S1(bf, $class(c))
   requires [C06] S2(bf)
   requires [C05,C06] S3(bf)
   requires [C05] S4(bf, $class(c))
@@ -104,7 +105,7 @@ func (bf *buffer) writeByte(c byte)
   ensures BK(bf)
 
 func (bf *buffer) writeRune(r rune)
-  requires [C02,C05] S1(bf, $class(r))
+  requires [C02,C05,C09] S1(bf, $class(r))
   requires [C06] S2(bf)
   requires [C05,C06] S3(bf)
   requires [C05] S4(bf, $class(r))
@@ -714,7 +715,11 @@ func (p *pp) handleSpecialValues(value reflect.Value, t reflect.Type, verb rune,
 
 func (p *pp) printArg(arg interface{}, verb rune)
   public verb
-  ghost p.gdone = true before "p.printValue(f, verb, 0)"
+  -- depth 0 tells printValue that the special-value and method dispatch for this very value has been done here: for a
+  -- valid reflect.Value operand that is only true after handleSpecialValues has been asked about it
+  ghost ghsv = false at entry
+  ghost ghsv = true after "if p.handleSpecialValues(f, t, verb, 0)"
+  ghost p.gdone = (!f.IsValid() || ghsv) before "p.printValue(f, verb, 0)"
   ghost p.gdone = true before "p.printValue(reflect.ValueOf(f), verb, 0)"
   ensures [C15] verb == 119 && !old(p.erroring) ==> (p.wrapErrs && !isnil(p.wrappedErr) && hasType(p.wrappedErr, "error") && old(p.wrapErrs) && isnil(old(p.wrappedErr))) || (!p.wrapErrs && isnil(p.wrappedErr))
   -- "a correctly used %w renders exactly like %v": an error operand met while the capture is armed and empty is the
